@@ -127,6 +127,28 @@ META4 = {
  "C19": ("sums over pathways memoised with a key made of the stored (type, tag) pairs", "pathways storage, two untagged type-level additions to one type with a view read in between"),
  "C20": ("block_distributed_range distributes whenever parallel_level > 0", "nested parallel regions (a library routine called inside a user's region) on more than one process"),
 }
+META5 = {
+ "C01": ("secularize() of the time-dependent tensor decides secular terms by a frequency criterion instead of the index pattern", "degenerate exciton levels (symmetric ring: equal energies and couplings), time-dependent tensor, secularize()"),
+ "C02": ("convert_from_RWA assumes a single rotating-wave frequency (first excited block) for all blocks", "three or more RWA blocks whose mean energies are not equidistant; evolution converted back to the laboratory frame"),
+ "C03": ("the aggregate keeps a reference to each molecule's elenergies array taken at add_Molecule and builds from it", "molecule.elenergies assigned (array replaced) after the molecule was added, then build()/rebuild()"),
+ "C04": ("eigenbasis_of.__enter__ for a protected operator multiplies the stacked transformations in reversed order", "protected operator stored >= 2 nesting levels behind the current basis, dimension >= 3, non-commuting outer transformations"),
+ "C05": ("Molecule.get_Hamiltonian (molecule with modes): zero-of-energy subtraction and set_rwa dedented out of the internal-units block", "molecule with at least one vibrational mode; first (or recalculating) get_Hamiltonian call inside a non-internal energy-units context"),
+ "C06": ("RedfieldRelaxationTensor.convert_2_tensor reads the raw _Km/_Lm/_Ld storage instead of the basis-managed accessors", "operator-form tensor created in one context, converted as the first touch inside a later eigenbasis context"),
+ "C07": ("ReducedDensityMatrixPropagator captures tensor.as_operators at construction", "propagator built before convert_2_tensor()/secularize() and used after it inside another basis"),
+ "C08": ("five-index SuperOperator.transform done by one einsum that uses S where conj(S) is needed", "complex Hermitian Hamiltonian (unitary eigenvectors), evolution superoperator calculated outside and used inside eigenbasis_of, or vice versa"),
+ "C09": ("CorrelationFunction.__add__ re-uses the data array of a numerically defined left operand", "sum whose left operand is defined by values; the operand is inspected afterwards"),
+ "C10": ("Aggregate.coupling computes the Franck-Condon factor only inside the same-band branch (inter-band couplings lose it)", "build(mult>=2, fem_full=True) or coupling(s1, s2, full=True) with vibrational modes"),
+ "C11": ("absorption calculator restores the Hamiltonian with undiagonalize() (which re-adds the remainder coupling) instead of transform(S^-1)", "effective Hamiltonian with remainder coupling (combined Redfield-Foerster with a coupling cut-off); Hamiltonian inspected or spectrum recalculated afterwards"),
+ "C12": ("mock 2D calculator memoises peak line shapes keyed on (shape, type, centre1, centre3) without the widths", "uncoupled molecules with exactly equal transition energies and different widths"),
+ "C13": ("FrequencyAxis.get_TimeAxis (complete axes) snaps a start with |start| < 1e-8 to zero (absolute instead of step-relative tolerance)", "complete axes on a fine scale of the variable (steps ~1e-9 and smaller) with a non-zero start"),
+ "C14": ("canonical populations count energies from the first level instead of the lowest one", "strong-coupling thermal excited state with a site several hundred kT below the first one (exp overflow -> nan)"),
+ "C15": ("TD tensor-form propagation reads the raw _data of the tensor once before the loops", "propagate() inside a basis context in which the time-dependent tensor has not been read yet"),
+ "C16": ("HEOM free term computed by einsum as H.rho - rho.H^T", "Hermitian Hamiltonian with complex couplings J exp(i phi)"),
+ "C17": ("PopulationPropagator.propagate allocates the result with the dtype of the initial populations", "initial populations given as an integer array such as array([1, 0, 0])"),
+ "C18": ("text export of density-matrix evolutions writes the lower triangle in tril order", ".dat/.txt round trip of an evolution with N >= 4 and complex coherences"),
+ "C19": ("conversion from storage by types to storage by signals sums only the rephasing and non-rephasing signals (the double-coherence signal R3fs+R4fs is dropped)", "contributions of types R3fs/R4fs, then a reduction that passes through types -> signals"),
+ "C20": ("distributed Redfield rate calculation slices the correlation-function integrals with the local block offset", "Redfield rates computed on more than one (simulated) process"),
+}
 pid = sys.argv[1]
 src = sys.argv[2] if len(sys.argv) > 2 else "/tmp/seed/" + pid
 dname = sys.argv[3] if len(sys.argv) > 3 else pid
@@ -137,6 +159,8 @@ elif dname.endswith("-c"):
     META = META3
 elif dname.endswith("-d"):
     META = META4
+elif dname.endswith("-e"):
+    META = META5
 os.makedirs(dst, exist_ok=True)
 for f in ("patch.diff", "demo.py"):
     shutil.copy(os.path.join(src, f), os.path.join(dst, f))
@@ -149,10 +173,10 @@ for tier in ("quick", "thorough"):
     res[tier] = {"demo_exit_unmodified": int(m.group(1)), "demo_exit_with_change": int(m.group(2)), "check_exit": int(m.group(3)), "first_clause": m.group(4).strip()[:160]}
     print(out[:200])
 head = subprocess.run(["git", "-C", "/repo", "rev-parse", "--short", "HEAD"], capture_output=True, text=True).stdout.strip()
-meta = {"property": pid, "origin": "fresh sub-agent given only the property text and a scratch worktree" + (" (second round: asked to aim at a different clause than the first seed)" if dname.endswith("-b") else (" (third round: two earlier targets excluded, list of hard-to-notice kinds of change given)" if dname.endswith("-c") else (" (fourth round: three earlier targets excluded)" if dname.endswith("-d") else ""))),
+meta = {"property": pid, "origin": "fresh sub-agent given only the property text and a scratch worktree" + (" (second round: asked to aim at a different clause than the first seed)" if dname.endswith("-b") else (" (third round: two earlier targets excluded, list of hard-to-notice kinds of change given)" if dname.endswith("-c") else (" (fourth round: three earlier targets excluded)" if dname.endswith("-d") else (" (fifth round: four earlier targets excluded)" if dname.endswith("-e") else "")))),
         "what": META[pid][0], "needs_to_manifest": META[pid][1],
         "confirmed": {"repo_head": head, "patch_applies": True,
-                      "pinned_suite_with_change": "148/148 stable tests pass (git -C /repo apply; ./baseline.sh; git -C /repo checkout -- .)",
+                      "pinned_suite_with_change": "148/148 stable tests pass (pinned suite run on the tree with the change applied: ./baseline.sh on /repo, or ./baseline_scratch.sh on a scratch copy for round 5)",
                       "demo": "demo.py exits %d on the unmodified package and %d with the change (PYTHONPATH=scratch copy)" % (res["quick"]["demo_exit_unmodified"], res["quick"]["demo_exit_with_change"]),
                       "check": res},
         "caught_by": {t: (res[t]["first_clause"].split(" mechanism")[0] if res[t]["check_exit"] == 1 else None) for t in res}}
